@@ -51,6 +51,13 @@ def cleanRestartOK (bigs : List Coin) (ops : List Op) : Bool :=
   | none, .ok s => s.n.tip == w.n.tip && sameSet s.n.utxo w.n.utxo && s.n.utxo.length == w.n.utxo.length
   | _, _ => false
 
+/-- ghost: did the restart after crash point k (recovery loop or feeding the blocks) read an undo file that names ANOTHER
+    block than the one being undone? (the flag is sticky, so stage 3 includes stage 2) -/
+def foreignAt (bigs : List Coin) (ops : List Op) (k : Nat) : Bool :=
+  match crashAt bigs ops k with
+  | .ok (_, _, s3) => s3.foreign
+  | .error _ => false
+
 /-! ### the multi-step updates as stand-alone effect lists -/
 def undoWriteEffects (u : UndoFile) (h : Nat) : List LEffect :=
   [(.writeUndoTmp u, .undoTmpWritten), (.renameUndoTmp h, .undoRenamed)]
